@@ -190,22 +190,62 @@ def run(ctx):
     ctx.floor("K4", nlex, 5, "lexers")
 
     # ------------------------------------------------------------------ K5 recursion depth
+    # A depth check is a parser method that compares a Parser field with a constant, returns an error on the far
+    # side and increments that field. A function that calls one is a guarded entry. Every recursion cycle of the
+    # parser must pass through a guarded entry: with the guarded entries removed the call graph must be acyclic.
     for lang in ("gql", "cypher", "sparql", "gremlin", "graphql"):
         pre = "grafeo_adapters::query::%s::parser::" % lang
         ids = {f.id for f in P.fns.values() if f.id.startswith(pre)}
-        sccs = _sccs(ids, P.edges())
+        checks = {fid for fid in ids if _is_depth_check(P, P.fns[fid])}
+        guarded = {fid for fid in ids if any(callee_name(t) in checks for bi, t in P.fns[fid].calls())}
+        rest = ids - guarded - checks
+        sccs = _sccs(rest, P.edges())
         cyc = [s for s in sccs if len(s) > 1 or any(x in P.edges().get(x, ()) for x in s)]
-        if not cyc:
+        all_cyc = [s for s in _sccs(ids, P.edges()) if len(s) > 1 or any(x in P.edges().get(x, ()) for x in s)]
+        ctx.note("K5 %s: %d recursive components, %d depth checks, %d guarded entries" % (lang, len(all_cyc), len(checks), len(guarded)))
+        if not all_cyc:
             ctx.ob("K5", "%s::parser#no-recursion" % lang, True, what="no recursion", where="")
             continue
-        guarded = True
-        for s in cyc:
-            if not _has_depth_check(P, s):
-                guarded = False
+        if cyc:
+            big = max(cyc, key=len)
+            ctx.ob("K5", "%s::parser#recursion-depth" % lang, False,
+                   what="the %s parser has a recursion cycle that passes no depth check (%d functions, e.g. %s): deeply nested "
+                        "input overflows the stack and aborts the process" % (lang, len(big), sorted(short_id(x).split("::")[-1] for x in big if "{closure" not in x)[:4]),
+                   where=P.fns[sorted(big)[0]].loc())
+        else:
+            ctx.ob("K5", "%s::parser#recursion-depth" % lang, True,
+                   what="every recursion cycle passes a guarded entry (%s)" % sorted(short_id(x).split("::")[-1] for x in guarded), where="")
+
+    # ------------------------------------------------------------------ K5b recursion on plan / AST depth after the parser
+    # The parsers bound *nesting*, but operator chains (`a + b + c ...`, `x AND y AND ...`, `.out().out()...`) are built in
+    # loops and deepen the AST / plan by one level per element. Every later stage that recurses on that depth needs its
+    # own bound (or the chains need one).
+    stages = {"gql_translator": "grafeo_engine::query::gql_translator::", "cypher_translator": "grafeo_engine::query::cypher_translator::",
+              "sparql_translator": "grafeo_engine::query::sparql_translator::", "gremlin_translator": "grafeo_engine::query::gremlin_translator::",
+              "graphql_translator": "grafeo_engine::query::graphql_translator::", "binder": "grafeo_engine::query::binder::",
+              "optimizer": "grafeo_engine::query::optimizer::", "planner": "grafeo_engine::query::planner::",
+              "planner_rdf": "grafeo_engine::query::planner_rdf::"}
+    nesting_only = {"graphql_translator": "GraphQL has no operator chains: selection sets, input values and types only deepen by nesting, "
+                                          "which the parser bounds (K5)"}
+    for name, pre in stages.items():
+        if name in nesting_only:
+            ctx.ob("K5b", "%s#recursion-depth" % name, True, what="exception: " + nesting_only[name], where="")
+            continue
+        ids = {f.id for f in P.fns.values() if f.id.startswith(pre) or ("<" + pre) in f.id}
+        if not ids:
+            raise CheckerError("C12-K5b: stage %s not found" % name)
+        checks = {fid for fid in ids if _is_depth_check(P, P.fns[fid])}
+        guarded = {fid for fid in ids if any(callee_name(t) in checks for bi, t in P.fns[fid].calls())}
+        rest = ids - guarded - checks
+        cyc = [s_ for s_ in _sccs(rest, P.edges()) if len(s_) > 1 or any(x in P.edges().get(x, ()) for x in s_)]
+        if not cyc:
+            ctx.ob("K5b", "%s#recursion-depth" % name, True, what="no unguarded recursion", where="")
+            continue
         big = max(cyc, key=len)
-        ctx.ob("K5", "%s::parser#recursion-depth" % lang, guarded,
-               what="the %s parser recurses on input nesting (%d mutually recursive functions, e.g. %s) without a depth limit: deeply "
-                    "nested input overflows the stack and aborts the process" % (lang, len(big), sorted(short_id(x) for x in big)[:3]),
+        ctx.ob("K5b", "%s#recursion-depth" % name, False,
+               what="%s recurses on the depth of the AST / plan (%d functions, e.g. %s) with no bound; the parsers only bound nesting, "
+                    "so a long operator or step chain (thousands of `+`, `AND`, `.out()`) overflows the stack"
+                    % (name, len(big), sorted(short_id(x).split("::")[-1] for x in big if "{closure" not in x)[:3]),
                where=P.fns[sorted(big)[0]].loc())
 
     # ------------------------------------------------------------------ K7 FFI
@@ -282,32 +322,31 @@ def _sccs(nodes, edges):
     return out
 
 
-def _has_depth_check(P, scc):
-    """some function of the cycle compares a struct field that the cycle also increments with a constant and
-    constructs an error on the far side"""
+def _is_depth_check(P, f):
+    """compares a struct field with an integer constant, builds an error, and increments the same field"""
     written = set()
-    for fid in scc:
-        f = P.fns[fid]
-        for b in f.blocks:
-            if b["cl"]:
-                continue
-            for st in b["s"]:
-                pl, rv, ln = st
-                flds = [p for p in pl[1:] if isinstance(p, str) and p.startswith("f:")]
-                if flds and rv[0] != "dead":
-                    written.add(flds[-1].split(":", 2)[1])
-    for fid in scc:
-        f = P.fns[fid]
-        fx = FlowCx(P, f)
-        for b in f.blocks:
-            if b["cl"]:
-                continue
-            for st in b["s"]:
-                rv = st[1]
-                if rv[0] == "bin" and rv[1] in ("Gt", "Ge", "Lt", "Le"):
-                    tg = fx.tags(rv[2]) | fx.tags(rv[3])
-                    fields = {x.split(".")[-1] for x in tg if x.startswith("cell:") and "Parser." in x}
-                    if fields & written and any(re.match(r"^const:\d+$", x) for x in tg) and \
-                            any(w in x.lower() for x in fields & written for w in ("depth", "nest", "level", "recurs")):
-                        return True
-    return False
+    for b in f.blocks:
+        if b["cl"]:
+            continue
+        for st in b["s"]:
+            pl, rv, ln = st
+            flds = [p for p in pl[1:] if isinstance(p, str) and p.startswith("f:")]
+            if flds and rv[0] != "dead":
+                written.add(flds[-1].split(":", 2)[1])
+    if not written:
+        return False
+    fx = FlowCx(P, f)
+    cmp_ok = False
+    for b in f.blocks:
+        if b["cl"]:
+            continue
+        for st in b["s"]:
+            rv = st[1]
+            if rv[0] == "bin" and rv[1] in ("Gt", "Ge", "Lt", "Le"):
+                tg = fx.tags(rv[2]) | fx.tags(rv[3])
+                fields = {x.split(".")[-1] for x in tg if x.startswith("cell:") and "Parser." in x}
+                if fields & written and any(re.match(r"^const:\d+$", x) for x in tg):
+                    cmp_ok = True
+    errs = any(st[1][0] == "agg" and st[1][1] == "adt" and st[1][2] == "core::result::Result" and st[1][3] == "Err"
+               for b in f.blocks if not b["cl"] for st in b["s"])
+    return cmp_ok and errs
